@@ -6,7 +6,7 @@ import os
 from hypothesis import strategies as st
 
 from vlib import gen
-from vlib.common import Violation, absent_key, config_kwargs, content_of, digest, new_dir, rm_dir, short
+from vlib.common import LOWERED_CHOICES, Violation, absent_key, config_kwargs, container_class, content_of, digest, new_dir, rm_dir, short
 from vlib.interp import MODES_PACK, _mode
 from vlib.runner import ddmin_ops, explore
 
@@ -49,13 +49,14 @@ def strategy(tier):
             'cfg': gen.config(targets=(64, 1000, 4 * 1024**3)),
             'pool': st.lists(gen.content_desc(3000, 0), min_size=1, max_size=8),
             'nhandles': st.integers(2, 4),
+            'lowered': st.sampled_from(list(LOWERED_CHOICES)),
             'ops': st.integers(4, hi).flatmap(lambda n: st.lists(op, min_size=n, max_size=n)),
         }
     )
 
 
 def run_case(case):  # pylint: disable=too-many-locals,too-many-branches,too-many-statements
-    from disk_objectstore import Container
+    Container = container_class(case.get('lowered'))
     from disk_objectstore.container import ObjectType
     from disk_objectstore.exceptions import NotExistent
 
